@@ -6,6 +6,7 @@
 package scen
 
 import (
+	"encoding/json"
 	"fmt"
 	"reflect"
 	"sort"
@@ -35,6 +36,8 @@ type MachineDef struct {
 	Inputs  int
 	Outputs int
 	Bonds   [][2]string
+	// SameDomain: all processors are instances of one domain (Procs[0])
+	SameDomain bool
 }
 
 func opsOf(prog string) []string {
@@ -71,10 +74,21 @@ func (d MachineDef) Build() *bondmachine.Bondmachine {
 	b := new(bondmachine.Bondmachine)
 	b.Rsize = 8
 	b.Init()
-	for i, p := range d.Procs {
-		b.Domains = append(b.Domains, buildProc(p))
-		if _, err := b.Add_processor(i); err != nil {
-			panic(err)
+	if d.SameDomain {
+		// every processor is an instance of ONE domain (the first processor's): one procbuilder.Machine object is
+		// then shared by all the per-processor simulator workers
+		b.Domains = append(b.Domains, buildProc(d.Procs[0]))
+		for range d.Procs {
+			if _, err := b.Add_processor(0); err != nil {
+				panic(err)
+			}
+		}
+	} else {
+		for i, p := range d.Procs {
+			b.Domains = append(b.Domains, buildProc(p))
+			if _, err := b.Add_processor(i); err != nil {
+				panic(err)
+			}
 		}
 	}
 	for i := 0; i < d.Inputs; i++ {
@@ -87,6 +101,22 @@ func (d MachineDef) Build() *bondmachine.Bondmachine {
 		b.Add_bond([]string{bd[0], bd[1]})
 	}
 	return b
+}
+
+// Reload passes a machine through save and load (Jsoner -> JSON -> Dejsoner -> Init): the result is a machine whose
+// objects nothing has touched yet, the state in which cmd/simfinetune and cmd/bondmachine start simulating.
+func Reload(b *bondmachine.Bondmachine) *bondmachine.Bondmachine {
+	js, err := json.Marshal(b.Jsoner())
+	if err != nil {
+		panic(err)
+	}
+	var j bondmachine.Bondmachine_json
+	if err := json.Unmarshal(js, &j); err != nil {
+		panic(err)
+	}
+	n := (&j).Dejsoner()
+	n.Init()
+	return n
 }
 
 // Indep builds k unconnected processors, processor i has one output bonded to BM output i.
@@ -402,6 +432,8 @@ type Scenario struct {
 	Ticks     [2]int
 	Bound     [2]int // preemption bound quick / thorough
 	Note      string
+	// ColdStart: every run simulates a freshly loaded copy of the machine (see Reload)
+	ColdStart bool
 	// RaceOnly: executed by the free-running -race pass only (its observations differ from run to run by
 	// construction, so it cannot be replayed under the controlled scheduler)
 	RaceOnly bool
@@ -445,6 +477,9 @@ func All() []Scenario {
 			Note: "2 unconnected processors with pc/disasm/regs/io report rules"},
 		{Name: "hetero2-showdisasm", Sims: one(Indep(progD, progE), "config:show_pc", "config:show_disasm"), Isolation: true, Ticks: [2]int{3, 4}, Bound: [2]int{2, 3},
 			Note: "2 unconnected processors of DIFFERENT architectures with equal word width executing identical bit strings, disassembly shown"},
+		{Name: "same-domain-cold-start", ColdStart: true, Sims: one(MachineDef{Procs: []Proc{{Prog: progD, M: 1}, {Prog: progD, M: 1}}, Outputs: 2, SameDomain: true,
+			Bonds: [][2]string{{"o0", "p0o0"}, {"o1", "p1o0"}}}, "config:show_pc"), Isolation: false, Ticks: [2]int{3, 4}, Bound: [2]int{2, 3},
+			Note: "2 processors that are instances of ONE domain, simulated on a machine that was just loaded from its saved form (nothing has used its objects before the workers do)"},
 		{Name: "pipe2-addp", Sims: one(Indep(pipeProgShort("addp"), pipeProgShort("addp"))), Isolation: true, OpYield: true, Ticks: [2]int{4, 5}, Bound: [2]int{2, 3},
 			Note: "2 unconnected processors both executing addp (process-wide Addp singleton); opcode executions are scheduling points"},
 		{Name: "pipe2-multp", Sims: one(Indep(pipeProg("multp"), pipeProg("multp"))), Isolation: true, OpYield: true, Ticks: [2]int{4, 5}, Bound: [2]int{2, 3},
@@ -556,7 +591,11 @@ func (b *Built) runSim(i int) []string {
 		}
 		return []string{prefix + "SPS " + RunSPS(b.BMs[i], s.Input, s.Delay, s.DataType)}
 	}
-	return RunVM(b.BMs[i], s.Rules, b.T).Lines(prefix)
+	bm := b.BMs[i]
+	if b.Sc.ColdStart {
+		bm = Reload(bm)
+	}
+	return RunVM(bm, s.Rules, b.T).Lines(prefix)
 }
 
 // Run executes the scenario once, all its simulations concurrently, and returns the
